@@ -149,7 +149,23 @@ class WGen:
         kind = ch.weighted(pairs)
         getattr(self, 'st_' + kind)(depth, env)
 
+    def st_misc(self, depth, env):
+        """statements that bind no watermark but can hold call sites / operations: assert, indexed assignment,
+        expression statement"""
+        ch = self.ch
+        r = ch.int(0, 2)
+        if r == 0:
+            self.emit(depth, f'assert {self.expr(env, 1)} == {self.leaf(env)} or {self.leaf(env)} > 0')
+        elif r == 1:
+            m = self.fresh('m')
+            self.emit(depth, f'{m} = [{self.leaf(env)}, {self.leaf(env)}]')
+            self.emit(depth, f'{m}[{ch.int(0, 1)}] = {self.expr(env)}')
+        else:
+            self.emit(depth, f'{self.expr(env, 0, calls=70 if self.focus in ("call", "mixed") else 0)}')
+
     def st_assign(self, depth, env):
+        if self.focus in ('call', 'mixed', 'rewrite', 'insert') and self.ch.bool(0.08):
+            return self.st_misc(depth, env)
         if self.focus in ('rewrite', 'mixed') and self.ch.bool(0.2):
             # the window a two-statement rule `y = a * b; z = c + d` matches
             m, m2 = self.fresh('m'), self.fresh('m')
